@@ -7,7 +7,8 @@
    sentence of the grammar; C02_recogniser_is_per_symbol extends it to streams. *)
 From Coq Require Import NArith List Bool.
 From MT Require Import Lib Types Tables Screen Parser.
-From MT.Proofs Require Import Stream Recog.
+From MT Require Import World.
+From MT.Proofs Require Import Stream Recog EndToEnd.
 From MT Require TablesOk_C03.
 Import ListNotations.
 Open Scope N_scope.
@@ -73,6 +74,17 @@ Proof. exact no_sink_state. Qed.
 Theorem C03_constants_of_the_source : GenTables.g_basic = map TablesOk_C03.one basic_ctrls /\ GenTables.g_osc_terminators = osc_terminators.
 Proof. pose proof TablesOk_C03.tables_ok_C03 as H. intuition. Qed.
 
+(* the glue to the screen: Parser::feed applies exactly the recogniser's events, in order; hence a complete CSI sequence
+   fed from the ground state (in any chunking, C02) performs its embedded controls and then exactly its dispatched operation *)
+Theorem C03_feed_applies_the_events_in_order : forall wid is_comb nfc cs w,
+  feed_chars wid is_comb nfc w cs =
+  mkW (fold_left (step wid is_comb nfc) (snd (prun (w_utf8 w) (w_pst w) cs)) (w_scr w)) (fst (prun (w_utf8 w) (w_pst w) cs)) (w_utf8 w) (w_dec w).
+Proof. exact feed_chars_events. Qed.
+Theorem C03_CSI_end_to_end : forall wid is_comb nfc w intro items c, w_pst w = PGround -> In intro csi_intros -> Forall item_ok items -> final_ok c ->
+  let w' := feed_chars wid is_comb nfc w (intro ++ map item_char items ++ [c]) in
+  w_scr w' = fold_left (step wid is_comb nfc) (ctl_events items ++ csi_dispatch c (map param_of (fields items)) (has_q items)) (w_scr w) /\ w_pst w' = PGround.
+Proof. exact e2e_csi. Qed.
+
 Example C03_example : snd (prun true PGround [27; 91; 63; 50; 53; 59; 10; 49; 104; 65]) = [OLinefeed; OSm [25; 1] true; ODraw [65]].
 Proof. vm_compute. reflexivity. Qed.
 
@@ -87,3 +99,5 @@ Print Assumptions C03_OSC.
 Print Assumptions C03_OSC_R_P.
 Print Assumptions C03_no_sink_state.
 Print Assumptions C03_constants_of_the_source.
+Print Assumptions C03_feed_applies_the_events_in_order.
+Print Assumptions C03_CSI_end_to_end.
